@@ -763,8 +763,9 @@ func childMain(in []byte) (any, error) {
 			c := &lib.Ctx{Prop: "C01", Seed: ci.Seed}
 			e := &execer{h: h, cfg: cfg, dir: filepath.Join(tmp, fmt.Sprintf("h%d-%d", idx, ci2)), st: st,
 				rng: c.CaseRng("check", idx*16+ci2), full: len(h.Batches) <= 8}
-			if ci.Tier != "thorough" {
-				e.capKeys = 400
+			e.capKeys = 300
+			if ci.Tier == "thorough" {
+				e.capKeys = 1500
 			}
 			rotBefore := st.cnt["rotations_left"] + st.cnt["rotations_right"]
 			t0 := time.Now()
@@ -830,7 +831,7 @@ func run(c *lib.Ctx) {
 	c.Assume("goleveldb and the harness' map model are trusted", "Store.Get cannot distinguish an absent key from an empty value: it is compared as bytes, presence is compared through Tree.Get",
 		"structural invariants (size, AVL balance, split key, node hash, Tree.Get index) are monitored as part of the DESIGN's oracle and reported under shape struct:*",
 		"removal batches use db.DelKVPair (the store's Del is unsupported); they are an extra operation stream of the same model")
-	n := c.N(48, 1000)
+	n := c.N(32, 600)
 	var idxs []int
 	for i := 0; i < n; i++ {
 		if c.Skip(i) {
